@@ -139,11 +139,22 @@ def gen_scenarios(chk, wd, gen_module, *, cfg_text=None, label="gen", workers=8,
     return scns
 
 
-def run_sim(chk, wd, scns, trace_module, *, label="sim", shards=12, sig_of=None, what_of=None, keep_traces=False, trace_cfg=None, runner="sim", env_extra=None):
+def run_sim(chk, wd, scns, trace_module, *, label="sim", shards=12, sig_of=None, what_of=None, keep_traces=False, trace_cfg=None, runner="sim", env_extra=None, schedules=None):
     """Execute scenarios on the real code (h3v sim) and validate every recorded trace with a TLC trace spec.
     Scenarios the spec cannot explain become violations (with a self-contained replay file)."""
     if not scns:
         return 0
+    # executor schedules: which of several woken tasks is polled next (lowest index first is the default)
+    pols = schedules if schedules is not None else [p for p in os.environ.get("VERIF_SCHEDS", "").split(",") if p]
+    if pols and runner == "sim":
+        extra = []
+        for pol in pols:
+            for s0 in scns:
+                s1 = dict(s0)
+                s1["cfg"] = dict(s0.get("cfg") or {}, sched=pol)
+                s1["id"] = f"{s0['id']}@{pol}"
+                extra.append(s1)
+        scns = list(scns) + extra
     shards = max(1, min(shards, (len(scns) + 199) // 200))
     parts = [scns[i::shards] for i in range(shards)]
     by_id = {s["id"]: s for s in scns}
